@@ -77,13 +77,19 @@ def older_modified_retried_while_younger_queued(case, res):
     """signature of F19: a queued event is retried successfully while a younger event of
     the same object is still queued - the retry rewrites the expected-state (complete)
     caches from the older event (re-applies an old 'modified', re-adds an object whose
-    queued 'removed' was already simulated), which regress until the younger is applied"""
+    queued 'removed' was already simulated), which regress until the younger is applied.
+    The queue is the one seen by the retried handler call itself (the entry being retried is
+    still in it: two entries of the object = a younger one is waiting), or, failing that
+    observation, the queue at the end of the iteration."""
     for ob in res["iters"]:
         queued = {(q["local"][1], kstr(q["local"][2])) for q in ob["queue"]}
         for c in ob["calls"]:
             if c["retry"] and c["out"] == "ok":
                 lt = "_".join(c["h"].split("_")[1:-1])
-                if (lt, kstr(c["key"])) in queued:
+                me = (lt, kstr(c["key"]))
+                if me in queued:
+                    return True
+                if sum(1 for q in (c.get("qobjs") or []) if (q[0], kstr(q[1])) == me) >= 2:
                     return True
     return False
 
